@@ -51,7 +51,7 @@ ASSUMPTIONS = [
     "provenance: the whole oracle is evaluated on the state after the last fit; whether unrelated answers depend on history is C14, deferred fits are C12",
     "n_pca_modes given as a float (variance fraction) is not enumerated: the number of PCs it selects belongs to C15/C16; solver_kwargs is never passed (C15)",
 ]
-TALLY_KEYS = ("kind", "prov", "r", "units", "use_pca", "n_pca_modes", "noise", "center", "standardize")
+TALLY_KEYS = ("kind", "prov", "layout", "r", "units", "use_pca", "n_pca_modes", "noise", "center", "standardize")
 TRUSTED = ["statsmodels import shim not used here"]
 
 GRID = {3: (3, 1), 4: (2, 2), 5: (5, 1), 6: (3, 2)}
@@ -139,8 +139,53 @@ def cases(tier, seed):
                     if tier == "quick" and s:
                         continue  # quick: histories with standardize=False only
                     out.append(dict(model="POP", use_pca=use_pca, n_pca_modes=k, center=c, standardize=s, coslat=False, weights=False, units=1.0, prov=prov, **ds))
+    # the time axis given as TWO sample dimensions dim=("yr", "mo") (chronological order = yr-major, as the dim argument says),
+    # stored in that order, transposed, or behind the feature dims: the storage order must not decide which sample follows which
+    for layout in LAYOUTS[1:]:
+        for ds in _datasets(tier):
+            if not _history_subset(ds, tier) or ds["shape"][0] % 5:
+                continue
+            p = ds["shape"][1]
+            for use_pca, k in ([(False, None), (True, 2)] if tier == "quick" else [(False, None)] + [(True, k) for k in (2, 3, 4) if k <= p] + [(True, "all")]):
+                for c, s in flags:
+                    if tier == "quick" and s:
+                        continue
+                    out.append(dict(model="POP", use_pca=use_pca, n_pca_modes=k, center=c, standardize=s, coslat=False, weights=False, units=1.0, layout=layout, **ds))
     # simplest first: fresh model, natural units, fewer PCs, default flags
     return out
+
+
+LAYOUTS = ("time", "yr_mo", "mo_yr", "space_mo_yr")
+
+
+def lay(da, layout):
+    """(time, lat, lon) -> the same series with time split into (yr, mo), yr-major, stored in the layout's order; -> (obj, dim)"""
+    import pandas as pd
+
+    if layout == "time":
+        return da, "time"
+    n = da.sizes["time"]
+    na, nb = n // 5, 5
+    mi = pd.MultiIndex.from_product([np.arange(na) + 1990, np.arange(nb) + 1], names=("yr", "mo"))
+    o = da.assign_coords(xr_coords_from_mi(mi)).unstack("time")
+    order = {"yr_mo": ("yr", "mo", "lat", "lon"), "mo_yr": ("mo", "yr", "lat", "lon"), "space_mo_yr": ("lat", "lon", "mo", "yr")}[layout]
+    return o.transpose(*order), ("yr", "mo")
+
+
+def xr_coords_from_mi(mi):
+    import xarray as xr
+
+    return xr.Coordinates.from_pandas_multiindex(mi, "time")
+
+
+def unlay(obj, layout, time):
+    """coefficient series with dims (yr, mo, mode) -> (time, mode) in chronological (yr-major) order under the plain labels"""
+    if layout == "time":
+        return obj
+    if not {"yr", "mo"} <= set(obj.dims):
+        raise D.LabelError("result has dims %s, expected the sample dims ('yr', 'mo')" % (tuple(obj.dims),))
+    o = obj.transpose("yr", "mo", ...).sortby(["yr", "mo"]).stack(time=("yr", "mo"))
+    return o.drop_vars(["time", "yr", "mo"]).assign_coords(time=time)
 
 
 # ----------------------------------------------------------------------------- inputs
@@ -276,6 +321,11 @@ def run_case(case, seed):
     prov = case.get("prov", "fresh")
     if prov != "fresh":
         feats["provenance"] = prov
+    layout = case.get("layout", "time")
+    if layout != "time":
+        feats["two_sample_dims"] = layout
+    da_time = da
+    da, fdim = lay(da, layout)
     V = []
 
     def bad(check, msg, **extra):
@@ -291,16 +341,17 @@ def run_case(case, seed):
         elif prov == "refit_same":
             m.fit(da, dim="time", weights=wda)
             first = m.transform(da)
-        m.fit(da, dim="time", weights=wda)
+        m.fit(da, dim=fdim, weights=wda)
         if prov == "transform_before":
             first = m.transform(da)
         comps = m.components()
         lam_da = m.eigenvalues()
         T_da = m.periods()
         tau_da = m.damping_times()
-        scores = m.scores()
-        tr = m.transform(da)
+        scores = unlay(m.scores(), layout, da_time.time.values)
+        tr = unlay(m.transform(da), layout, da_time.time.values)
         Zin = m.data["input_data"]
+    da = da_time
 
     modes = np.arange(1, k + 1)
     lab = {"time": da.time.values, "lat": da.lat.values, "lon": da.lon.values, "mode": modes}
